@@ -36,6 +36,8 @@ mod morx;
 use text::{t, tag_str, Fam, Sc, TextGen, EXTRA_TAGS, SCRIPTS};
 use walk::{Kind, Walked};
 
+/// Calls whose run could grow beyond this many glyphs are not made (see the plan's assumptions).
+const GROWTH_LIMIT: f64 = 16_000.0;
 const LAYOUT_TABLES: &[&str] = &["GSUB", "GPOS", "GDEF", "kern", "morx"];
 const DOTTED_CIRCLE: char = '\u{25CC}';
 
@@ -631,7 +633,9 @@ impl C02 {
             chars,
             hot_chars,
             aots: false,
-            growth: 1.0,
+            // "grow" programs: every pass is applied once, so the construction bound is exact; the
+            // probe (64 characters, run from exhaustive()) is exempt
+            growth: if probe { 1.0 } else { prog.growth },
         })
     }
 }
@@ -954,7 +958,7 @@ impl C02 {
         let text_s: String = call.text.iter().collect();
         let mp = if call.presentation_required { MatchingPresentation::Required } else { MatchingPresentation::NotRequired };
         let script = call.script;
-        if call.text.len().max(8) as f64 * fc.growth > 25_000.0 {
+        if call.text.len().max(8) as f64 * fc.growth > GROWTH_LIMIT {
             // exponential growth of the run is a recorded limitation of allsorts (no limit on the
             // run length), not something this check judges: keep it out of the workload
             cx.class("skipped:growth-potential");
@@ -1018,7 +1022,12 @@ impl C02 {
         };
         // ---- shape ----
         let shape_guard = if fc.program == Some("grow-probe") { "shape:growth-probe" } else { "shape" };
+        let t_shape = thread_cpu_ns();
         let r = cx.guard(shape_guard, len, || font.shape(glyphs, script, call.lang, &call.features, tuple, call.kerning));
+        let shape_ms = thread_cpu_ns().saturating_sub(t_shape) / 1_000_000;
+        if shape_ms >= 500 {
+            cx.class(if shape_ms >= 2000 { "shape-cpu>=2s" } else if shape_ms >= 1000 { "shape-cpu>=1s" } else { "shape-cpu>=0.5s" });
+        }
         let (infos, was_err) = match r {
             None => return,
             Some(Ok(i)) => {
